@@ -200,9 +200,11 @@ class FPDomain(Domain):
 
 
 class RealDomain(Domain):
-    def __init__(self, delta):
+    def __init__(self, delta, symbolic_const_div=False):
         super().__init__()
         self.delta = delta
+        self.symbolic_const_div = symbolic_const_div
+        self.named_consts = []  # (z3 const, folded value, exact quotient)
         self.name = "REAL-delta" if delta else "REAL-exact"
         self.ln_f = z3.Function("ln_real", z3.RealSort(), z3.RealSort())
         self.exp_f = z3.Function("exp_real", z3.RealSort(), z3.RealSort())
@@ -275,6 +277,12 @@ class RealDomain(Domain):
         if a.conc is not None and b.conc is not None:
             if b.conc == 0:
                 raise ValueError("constant division by zero")
+            if getattr(self, "symbolic_const_div", False):
+                # name the constant: K!n stands for the (rounded) quotient; lets rounding bounds be posed per lane
+                folded = self._fold(a.conc / b.conc)
+                name = z3.Real("K!%d" % len(self.named_consts))
+                self.named_consts.append((name, folded.conc, a.conc / b.conc))
+                return Num(self, name)
             return self._fold(a.conc / b.conc)
         if b.conc is not None:
             if b.conc == 0:
@@ -327,6 +335,10 @@ class RealDomain(Domain):
             return {"Lt": x < y, "Le": x <= y, "Gt": x > y, "Ge": x >= y, "Eq": x == y, "Ne": x != y}[op]
         x, y = a.t, b.t
         return {"Lt": x < y, "Le": x <= y, "Gt": x > y, "Ge": x >= y, "Eq": x == y, "Ne": x != y}[op]
+
+    def reset(self):
+        super().reset()
+        self.named_consts = []
 
     def delta_bounds(self):
         return [z3.And(d >= -self.u, d <= self.u) for d in self.deltas]
